@@ -337,6 +337,8 @@ func c16Random(c *Ctx) {
 	}
 	usesRand, locked := false, false
 	var lockPos, randPos, unlockPos int
+	var lockRecv ssa.Value
+	var lockAt ssa.Instruction
 	i := 0
 	for _, b := range ev.Blocks {
 		for _, ins := range b.Instrs {
@@ -356,6 +358,8 @@ func c16Random(c *Ctx) {
 			case f.String() == "(*sync.Mutex).Lock":
 				if _, isDefer := ins.(*ssa.Defer); !isDefer {
 					lockPos = i
+					lockRecv = call.Common().Args[0]
+					lockAt = ins
 				}
 			case f.String() == "(*sync.Mutex).Unlock":
 				unlockPos = i
@@ -365,6 +369,21 @@ func c16Random(c *Ctx) {
 	locked = lockPos > 0 && lockPos < randPos && (unlockPos == 0 || unlockPos > randPos || unlockPos < lockPos)
 	if lockPos > 0 && unlockPos > 0 && unlockPos < randPos && unlockPos > lockPos {
 		locked = false
+	}
+	if usesRand && locked && lockRecv != nil {
+		// the lock must be the one every holder of the shared source contends on: a mutex that is a by-value
+		// field of the method's own copy of the receiver (value receiver, Random is passed by value
+		// everywhere) is private to the call and excludes nobody, while the *rand.Rand behind it is shared
+		root := lockRecv
+		for {
+			if fa, ok := root.(*ssa.FieldAddr); ok {
+				root = fa.X
+				continue
+			}
+			break
+		}
+		_, private := root.(*ssa.Alloc)
+		r.Check(!private, "R16-nojoin", "eval.Random's mutex is shared by every copy of the generator", c.pos(lockAt.Pos()), "", "the mutex locked is stored by value in the method's own copy of the receiver: every copy of a Random (search contexts are copied per search and per move) locks a different mutex while all of them share one *rand.Rand; overlapping searches corrupt the source (index out of range [-1] in math/rand)")
 	}
 	r.Check(!usesRand || locked, "R16-nojoin", "eval.Random guards its random source", c.pos(ev.Pos()), "", "Random.Evaluate calls (*rand.Rand) methods without holding a mutex; the same Random (hence the same *rand.Rand, which is not safe for concurrent use) is handed to every search of a game, and Halt returns before the halted search has unwound, so two searches can be inside it at once")
 }
